@@ -3713,3 +3713,227 @@ func init() {
 			return out
 		}})
 }
+
+// VECSINGLE — the single-polynomial coefficient accessor is only used where there is no slot mapping.
+//
+// A PolynomialVector with a mapping evaluates a different polynomial per group of slots; its coefficients are read
+// through GetVectorCoefficient. GetSingleCoefficient(pol.Value[0], k) there gives every slot the coefficient of the
+// first polynomial (and the slots outside the mapping a non-zero value). The degree-zero block hoisted out of the
+// `mapping != nil` test was written twice by the seeding agents.
+//
+// Rule: in a function that tests a local `mapping` against nil, every call of GetSingleCoefficient lies inside the arm
+// where the mapping is nil (else-arm of `if mapping != nil`, then-arm of `if mapping == nil`), and every call of
+// GetVectorCoefficient inside the arm where it is not.
+func scanVecSingle(c *core.Ctx) []ob {
+	var out []ob
+	n := 0
+	c.FuncDecls(func(pk *packages.Package, file *ast.File, fd *ast.FuncDecl) {
+		if fd.Body == nil || fileIsTestSupport(c.Program, fd.Pos()) || inExamples(pk) {
+			return
+		}
+		info := pk.TypesInfo
+		fkey := core.FuncKey(pk, fd)
+		type arm struct {
+			blk    ast.Node
+			nilArm bool
+		}
+		var arms []arm
+		ast.Inspect(fd.Body, func(x ast.Node) bool {
+			is, ok := x.(*ast.IfStmt)
+			if !ok {
+				return true
+			}
+			be, ok := unparen(is.Cond).(*ast.BinaryExpr)
+			if !ok || (be.Op != token.NEQ && be.Op != token.EQL) {
+				return true
+			}
+			var other ast.Expr
+			if isNilIdent(be.Y) {
+				other = be.X
+			} else if isNilIdent(be.X) {
+				other = be.Y
+			} else {
+				return true
+			}
+			if !strings.Contains(strings.ToLower(exprString(other)), "mapping") {
+				return true
+			}
+			thenNil := be.Op == token.EQL
+			arms = append(arms, arm{is.Body, thenNil})
+			if is.Else != nil {
+				arms = append(arms, arm{is.Else, !thenNil})
+			}
+			return true
+		})
+		if len(arms) == 0 {
+			return
+		}
+		inArm := func(p ast.Node, wantNil bool) bool {
+			for _, a := range arms {
+				if a.nilArm == wantNil && p.Pos() >= a.blk.Pos() && p.End() <= a.blk.End() {
+					return true
+				}
+			}
+			return false
+		}
+		ast.Inspect(fd.Body, func(x ast.Node) bool {
+			call, ok := x.(*ast.CallExpr)
+			if !ok {
+				return true
+			}
+			nm := calleeName(info, call)
+			if nm != "GetSingleCoefficient" && nm != "GetVectorCoefficient" {
+				return true
+			}
+			n++
+			wantNil := nm == "GetSingleCoefficient"
+			key := fmt.Sprintf("VECSINGLE:%s#%s@%d", fkey, nm, n)
+			if inArm(call, wantNil) {
+				out = append(out, okOb("VECSINGLE", key, c.Rel(call.Pos()), "the accessor is used in the arm that matches the presence of a mapping", true))
+			} else {
+				what := "without a mapping"
+				if !wantNil {
+					what = "with a mapping"
+				}
+				out = append(out, violOb("VECSINGLE", key, c.Rel(call.Pos()), fmt.Sprintf("%s calls %s outside the arm %s: with a slot mapping the coefficient differs per group of slots (and is zero outside the mapping), the single-polynomial accessor gives the first polynomial's coefficient to every slot", fkey, nm, what)))
+			}
+			return true
+		})
+	})
+	c.Stats["vecsingle_calls"] = n
+	return out
+}
+
+func init() {
+	core.Register(&core.Rule{Name: "VECSINGLE", Props: []string{"C13"},
+		Doc: "in a function that tests `mapping` against nil, GetSingleCoefficient is only called in the arm where the mapping is nil and GetVectorCoefficient in the arm where it is not",
+		Run: func(c *core.Ctx) []ob {
+			out := scanVecSingle(c)
+			out = append(out, control(c, "VECSINGLE", scanVecSingle, "lvfixture.constTerm")...)
+			out = append(out, core.Floor("VECSINGLE", nil, "coefficient accessor calls next to a mapping test", c.Stats["vecsingle_calls"], 4)...)
+			return out
+		}})
+}
+
+// INITIDX — "first iteration" is not recognised by the loop index under a condition that can skip that iteration.
+//
+// An accumulator that is initialised by the first contribution and added to by the following ones needs "first
+// contribution", not "first iteration": `if i == 0 { acc = x } else { acc += x }` nested under `if bit(i) == 1` takes
+// the accumulate arm on an uninitialised (stale) accumulator whenever bit 0 is clear. (PartialTracesSum keeps a
+// boolean for this; the seeding agents replaced it by `i == 0` twice.)
+//
+// Rule: inside a loop with index variable i that starts at a constant a, an `if` whose condition contains `i == a`
+// (and that has an else arm, i.e. selects between two forms) is not nested under another `if`/case of the loop body
+// whose condition does not mention i's start test — error checks (`err != nil`) excepted.
+func scanInitIdx(c *core.Ctx) []ob {
+	var out []ob
+	n := 0
+	c.FuncDecls(func(pk *packages.Package, file *ast.File, fd *ast.FuncDecl) {
+		if fd.Body == nil || fileIsTestSupport(c.Program, fd.Pos()) || inExamples(pk) {
+			return
+		}
+		info := pk.TypesInfo
+		fkey := core.FuncKey(pk, fd)
+		pm := parentMapCached(fd)
+		ast.Inspect(fd.Body, func(x ast.Node) bool {
+			var body *ast.BlockStmt
+			var iv types.Object
+			start := "0"
+			switch l := x.(type) {
+			case *ast.ForStmt:
+				body = l.Body
+				if as, ok := l.Init.(*ast.AssignStmt); ok && len(as.Lhs) >= 1 && len(as.Rhs) >= 1 {
+					if id, ok := as.Lhs[0].(*ast.Ident); ok {
+						iv = info.Defs[id]
+					}
+					if tv, ok := info.Types[as.Rhs[0]]; ok && tv.Value != nil {
+						start = tv.Value.ExactString()
+					} else {
+						iv = nil
+					}
+				}
+			case *ast.RangeStmt:
+				body = l.Body
+				if id, ok := l.Key.(*ast.Ident); ok && id != nil {
+					iv = info.Defs[id]
+				}
+			default:
+				return true
+			}
+			if iv == nil {
+				return true
+			}
+			ast.Inspect(body, func(y ast.Node) bool {
+				is, ok := y.(*ast.IfStmt)
+				if !ok || is.Else == nil {
+					return true
+				}
+				first := false
+				ast.Inspect(is.Cond, func(z ast.Node) bool {
+					if be, ok := z.(*ast.BinaryExpr); ok && be.Op == token.EQL {
+						if id, ok := unparen(be.X).(*ast.Ident); ok && info.Uses[id] == iv {
+							if tv, ok := info.Types[be.Y]; ok && tv.Value != nil && tv.Value.ExactString() == start {
+								first = true
+							}
+						}
+					}
+					return true
+				})
+				if !first {
+					return true
+				}
+				n++
+				key := fmt.Sprintf("INITIDX:%s#%s@%s", fkey, iv.Name(), c.Rel(is.Pos()))
+				// enclosing conditions between the loop body and this if
+				var under ast.Node
+				for p := pm[ast.Node(is)]; p != nil && p != ast.Node(body); p = pm[p] {
+					switch v := p.(type) {
+					case *ast.IfStmt:
+						if !mentionsErrVar(info, v.Cond) {
+							under = v
+						}
+					case *ast.CaseClause:
+						under = v
+					case *ast.ForStmt, *ast.RangeStmt:
+						// an inner loop: the test is about the outer index inside every inner iteration, fine
+					}
+				}
+				if under != nil {
+					out = append(out, withProps(violOb("INITIDX", key, c.Rel(is.Pos()), fmt.Sprintf("%s selects the initialising form with `%s` under the condition at %s, which need not hold in the iteration %s == %s: the accumulating arm then runs on a destination that was never initialised", fkey, exprString(is.Cond), c.Rel(under.Pos()), iv.Name(), start)), propsForKey(fkey)...))
+				} else {
+					out = append(out, withProps(okOb("INITIDX", key, c.Rel(is.Pos()), "the first-iteration test is evaluated in every iteration", true), propsForKey(fkey)...))
+				}
+				return true
+			})
+			return true
+		})
+	})
+	c.Stats["initidx_sites"] = n
+	if !c.IsFixture {
+		out = append(out, okOb("INITIDX", "INITIDX:summary", "", fmt.Sprintf("%d first-iteration selections examined", n), true))
+	}
+	return out
+}
+
+func mentionsErrVar(info *types.Info, e ast.Expr) bool {
+	found := false
+	ast.Inspect(e, func(n ast.Node) bool {
+		if id, ok := n.(*ast.Ident); ok {
+			if o := info.Uses[id]; o != nil && isErrorType(o.Type()) {
+				found = true
+			}
+		}
+		return true
+	})
+	return found
+}
+
+func init() {
+	core.Register(&core.Rule{Name: "INITIDX", Wide: true, Props: []string{"C01", "C02", "C03", "C04", "C05", "C06", "C07", "C08", "C09", "C10", "C11", "C12", "C13", "C14", "C15", "C16", "C17", "C18", "C19", "C20"},
+		Doc: "inside a loop whose index starts at a constant a, an if/else selected by `i == a` is not nested under another condition of the loop body (error checks excepted) that may be false in that iteration",
+		Run: func(c *core.Ctx) []ob {
+			out := scanInitIdx(c)
+			out = append(out, control(c, "INITIDX", scanInitIdx, "lvfixture.sumBits")...)
+			return out
+		}})
+}
